@@ -474,6 +474,19 @@ def _check_class(ctx: Ctx, cls: ClassInfo, idx_bin: int) -> None:
             env.vars[xname] = ("array", "y")
             value = ev.expr(env, rv)
     except Unsupported as u:
+        stored = [n for n in ast.walk(rv) if isinstance(
+            n, ast.Attribute) and isinstance(n.value, ast.Name)
+            and n.value.id == xname and n.attr in ("n_bins",)]
+        if stored:
+            ctx.ob("D2.1", evm, stored[0], False,
+                   f"{cls.name}.evaluate returns the stored attribute "
+                   f"`{ast.unparse(stored[0])}` instead of computing the "
+                   "number of bins from the rows of the packing: a record "
+                   "whose attribute is unset or stale gets a value that is "
+                   "not the documented function of the packing (and may "
+                   "lie outside the declared bounds)",
+                   construct=f"value of {cls.name}")
+            return
         ctx.ob("D2.1", kern or evm, u.node or evm.node, False,
                f"cannot normalise the objective value: {u}",
                construct=f"value of {cls.name}")
